@@ -436,7 +436,8 @@ def simulate(case, rundir):
             if f not in tree:
                 continue
             r2 = random.Random(st["seed"])
-            pxds = sorted(p for p in tree if tree[p]["kind"] == "pxd" and not os.path.splitext(p)[0] + ".pyx" in tree and p != "dz.pxd")
+            pxds = sorted(p for p in tree if tree[p]["kind"] == "pxd" and os.path.splitext(p)[0] + ".pyx" not in tree
+                          and os.path.splitext(p)[0] + ".py" not in tree and p != "dz.pxd")
             if tree[f]["kind"] == "pxi":
                 continue
             keep = [s for s in tree[f]["stmts"] if s[0] in ("include", "decoy")]
